@@ -21,7 +21,10 @@ Inductive sprog : Type :=
 | SSeq (p q : sprog)
 | SPar (ps : list sprog)
 | SBranch (id : N) (c : cspec) (alts : list sprog)
-| SSub (w : swrap) (p : sprog).
+| SSub (w : swrap) (p : sprog)
+| SMap (f : fmap)
+| SCheck (want_map : bool)
+| SLoop (id : N) (c : lspec) (body : sprog) (fuel : nat).
 
 Definition compile_handler (h : option (N * nspec)) : option (N * node val val) :=
   match h with Some (i, sp) => Some (i, node_of_spec sp) | None => None end.
@@ -37,6 +40,9 @@ Fixpoint compile_sprog (p : sprog) : prog :=
   | SPar ps => PPar (map compile_sprog ps)
   | SBranch id c alts => PBranch id (cond_of_spec c) (map compile_sprog alts)
   | SSub w p => PSub (compile_wrap w) (compile_sprog p)
+  | SMap f => PMap f
+  | SCheck m => PCheck m
+  | SLoop id c body fuel => PLoop id (loop_cond_of_spec c) (compile_sprog body) fuel
   end.
 
 (* a harness lambda: at least one native implementation (AnyLambda rejects none); one of
@@ -59,6 +65,9 @@ Fixpoint sprog_wf (p : sprog) : bool :=
   | SPar ps => negb (match ps with [] => true | _ => false end) && forallb sprog_wf ps
   | SBranch _ c alts => forallb sprog_wf alts
   | SSub w p => swrap_wf w && sprog_wf p
+  | SMap f => fmap_wf f
+  | SCheck _ => true
+  | SLoop _ _ body _ => sprog_wf body
   end.
 
 (* the interleaving the model run uses in the correspondence: the sources one after the
@@ -95,3 +104,28 @@ Definition mixed_prog : sprog :=
         (SBranch 4 {| cs_collect := true; cs_n := 2; cs_fail := false |}
                  [SNode sw_none 6 (spec_simple 2 "n6" 2 3 false false false true 1 true);
                   SNode sw_none 5 (spec_simple 0 "n5" 0 0 true false false false 2 false)])).
+
+(* Workflow: a map producer, a field mapping from a key it does not produce, a string consumer
+   (corpus f_c04c_fieldmap_missing.json) *)
+Definition fmiss_prog : sprog :=
+  SSeq (SNode sw_none 1 (spec_simple 2 "n1" 0 1 true false false false 0 false))
+  (SSeq (SMap (FTake 7))
+        (SNode sw_none 2 (spec_simple 0 "n2" 0 0 false false false true 0 true))).
+
+(* Workflow: fan-out to a map producer and a string producer, field mappings into distinct
+   fields of the consumer's input map *)
+Definition wf_prog : sprog :=
+  SSeq (SPar [SSeq (SNode sw_none 1 (spec_simple 2 "n1" 0 1 false true false false 1 false))
+                   (SMap (FTo [(Some 1%N, 5%N); (Some 0%N, 6%N)]));
+              SSeq (SNode sw_none 2 (spec_simple 0 "n2" 0 0 false false false true 3 true))
+                   (SMap (FTo [(None, 7%N)]))])
+       (SNode sw_none 3 (spec_simple 1 "n3" 0 0 false false true false 0 false)).
+
+(* a cycle: a chunk-by-chunk transformer and a Stream-native node, run again while the
+   value is shorter than 20 characters (stream condition) *)
+Definition loop_prog : sprog :=
+  SSeq (SLoop 9 {| ls_collect := true; ls_bound := 20; ls_fail := false |}
+          (SSeq (SNode sw_none 1 (spec_simple 0 "n1" 0 0 false false false true 1 true))
+                (SNode sw_none 2 (spec_simple 0 "n2" 0 0 false true false false 3 false)))
+          22)
+       (SNode sw_none 3 (spec_simple 0 "n3" 0 0 true false false false 0 false)).
